@@ -215,3 +215,20 @@ claim("C16",
       "terminal event), the SQLite store (MAX+1 in SQL) and the HTTP layer (_resolve_event_stream) are not under "
       "contract; 'the first record returned is exactly number k+1' needs a counting argument that is not stated.",
       category="other")
+
+claim("C25",
+      "KeyedLock.__call__ is a generator-based async context manager; its two atomic sections (the bodies of the two "
+      "`async with self._get_main_lock()` blocks, extracted mechanically from the real source on every run) are under "
+      "contract and discharged by z3: registering adds exactly one unit to _refs[key], creates a lock only for a key "
+      "that has none and otherwise keeps the SAME lock object, touches no other key; deregistering removes one unit, "
+      "deletes the key's entries exactly when the count reaches zero and touches no other key; both keep the table "
+      "invariant (a lock exists exactly for keys with a positive count). On the AST of the real method: both sections "
+      "contain no await / yield, every other table access is the read of the key's lock to acquire it, the caller's "
+      "block runs under the key's lock, deregistration sits in the finally around it (holders, failing blocks and "
+      "cancelled waiters all deregister) and registration precedes the try.",
+      "The composition (per-key mutual exclusion, independence of keys, no lock state left) follows from these facts "
+      "plus asyncio.Lock's exclusion by a rely/guarantee argument written in the evidence assumptions, which is not "
+      "machine-checked; 'every waiter eventually enters' (fairness of asyncio.Lock) is not decided.",
+      category="other",
+      technique="contract-based: pre/postconditions + data-structure invariant on the mechanically extracted atomic "
+                "sections of the real method (pyvc + z3), structural obligations on its AST")
